@@ -81,6 +81,29 @@ macro_rules! collect {
                             }
                         }
                     }
+                    // detaching an event from the buffer (into_owned / to-owned conversions, as every collecting caller does)
+                    // does not change what its own decoding API returns
+                    match &ev {
+                        Event::Text(t) | Event::Comment(t) | Event::DocType(t) => {
+                            let a = t.unescape().ok().map(|c| c.into_owned());
+                            let b1 = t.clone().into_owned().unescape().ok().map(|c| c.into_owned());
+                            let b2 = match ev.clone().into_owned() {
+                                Event::Text(t2) | Event::Comment(t2) | Event::DocType(t2) => t2.unescape().ok().map(|c| c.into_owned()),
+                                _ => None,
+                            };
+                            if a != b1 || a != b2 {
+                                k = format!("into_owned changes the text of a {} event: {a:?} / {b1:?} / {b2:?}", kind(&ev));
+                            }
+                        }
+                        Event::CData(c) => {
+                            let a = c.clone().escape().ok().and_then(|t| t.unescape().ok().map(|x| x.into_owned()));
+                            let b1 = c.clone().into_owned().escape().ok().and_then(|t| t.unescape().ok().map(|x| x.into_owned()));
+                            if a != b1 {
+                                k = format!("into_owned changes the text of a CData event: {a:?} / {b1:?}");
+                            }
+                        }
+                        _ => {}
+                    }
                     out.push(Ev { k, bytes, decoded, label, enc: dec.encoding().name().to_string() });
                 }
                 Err(_) => {
